@@ -160,7 +160,7 @@ class Array(AbstractPriorModel):
         array = cls(shape)
         for key, value in arguments.items():
             if key.startswith("prior"):
-                setattr(array, key, from_dict(value))
+                setattr(array, key, from_dict(value, loaded_ids=loaded_ids))
 
         return array
 
